@@ -289,7 +289,30 @@ def canon_store(s: Store):
         val = r(val)
     loops = tuple((repr(r(l.lo)), repr(r(l.hi)), repr(r(l.step))) for l in s.loops)
     guards = tuple(sorted(str(norm_cond(_rename_cond(c, r))) for c in real_guards(s.guards)))
+    if isinstance(val, Poly):
+        _VALS[repr(val)] = val
     return (tuple(repr(r(x)) for x in s.idx), s.op, repr(val) if not isinstance(val, tuple) else tuple(map(repr, val)), loops, guards)
+
+
+_VALS: Dict[str, Poly] = {}
+
+
+def net_updates(updates):
+    """canonical stores (canon_store / ref_store tuples) with the accumulations that hit the same element in the same loop nest under the same guards added up:
+    `A[i, i] += a; A[i, i] += b` and `A[i, i] += a + b` are the same update, as are `-= v` and `+= -v`.  Plain assignments and other operators stay as they are."""
+    groups, out = {}, []
+    for u in updates:
+        idx, op, val, loops, guards = u
+        if op in ("+=", "-=") and isinstance(val, str) and val in _VALS:
+            groups.setdefault((idx, loops, guards), []).append(_VALS[val] if op == "+=" else -_VALS[val])
+        else:
+            out.append(u)
+    for (idx, loops, guards), vs in groups.items():
+        tot = vs[0]
+        for v in vs[1:]:
+            tot = tot + v
+        out.append((idx, "+=", repr(tot), loops, guards))
+    return out
 
 
 def _rename_cond(c: Cond, r):
@@ -305,6 +328,8 @@ def _rename_cond(c: Cond, r):
 
 def ref_store(idx, op, value, loops, guards=()):
     """reference counterpart of canon_store, written with L0, L1, ... as loop atoms"""
+    if isinstance(value, Poly):
+        _VALS[repr(value)] = value
     return (tuple(repr(x) for x in idx), op, repr(value) if not isinstance(value, tuple) else tuple(map(repr, value)),
             tuple((repr(a), repr(b), repr(c)) for a, b, c in loops), tuple(sorted(str(norm_cond(g)) for g in guards)))
 
@@ -341,6 +366,14 @@ def expr_poly(e: ast.expr, resolve=None) -> Poly:
                 return Poly.fn("div", a, b)
         if isinstance(e.op, ast.MatMult):
             return Poly.fn("matmul", a, b)
+        if isinstance(e.op, ast.FloorDiv):
+            return Poly.fn("fdiv", a, b)
+    if isinstance(e, ast.Call) and isinstance(e.func, ast.Name) and e.func.id == "int" and len(e.args) == 1 and not e.keywords:
+        # int(q / d) and q // d share one form for the non-negative sizes they are applied to here (as in KEval.to_int)
+        from .keval import KEval
+        inner = expr_poly(e.args[0], resolve)
+        r = KEval.to_int(None, inner)
+        return r if isinstance(r, Poly) else Poly.fn("int", inner)
     if isinstance(e, ast.Call):
         t = norm_text(e.func)
         if t in ("np.dot", "numpy.dot", "np.matmul") and len(e.args) == 2:
@@ -355,6 +388,11 @@ def expr_poly(e: ast.expr, resolve=None) -> Poly:
         if op in ("Gt", "GtE"):  # canonical orientation
             a, b, op = b, a, {"Gt": "Lt", "GtE": "LtE"}[op]
         return Poly.fn("cmp:" + op, expr_poly(a, resolve), expr_poly(b, resolve))
+    if isinstance(e, ast.Call) and not any(isinstance(a, ast.Starred) for a in e.args) and all(k.arg is not None for k in e.keywords):
+        # any other call: an application of its (textual) callee to the forms of its arguments, keywords by name
+        return Poly.fn("call:" + norm_text(e.func), *[expr_poly(a, resolve) for a in e.args], *[Poly.fn("kw:" + k.arg, expr_poly(k.value, resolve)) for k in sorted(e.keywords, key=lambda k: k.arg)])
+    if isinstance(e, ast.Tuple) and not any(isinstance(a, ast.Starred) for a in e.elts):
+        return Poly.fn("tuple", *[expr_poly(a, resolve) for a in e.elts])
     return Poly.atom(("s", "<" + norm_text(e) + ">"))
 
 
@@ -465,3 +503,26 @@ def cond_equiv(a: Cond, b: Cond, limit: int = 10) -> bool:
         if ev(a, env) != ev(b, env):
             return False
     return True
+
+
+def index_form(e: ast.expr):
+    """A[i, j] / A[i][j] with slices -> (name, ((kind, lower, upper) ...)) in canonical polynomial form; a missing lower bound is 0.  None if not of that shape."""
+    idx = []
+    cur = e
+    chain_ = []
+    while isinstance(cur, ast.Subscript):
+        chain_.append(cur.slice)
+        cur = cur.value
+    if not isinstance(cur, ast.Name):
+        return None
+    for sl in reversed(chain_):
+        idx.extend(sl.elts if isinstance(sl, ast.Tuple) else [sl])
+    out = []
+    for i in idx:
+        if isinstance(i, ast.Slice):
+            if i.step is not None:
+                return None
+            out.append(("slice", expr_poly(i.lower) if i.lower is not None else ZERO, expr_poly(i.upper) if i.upper is not None else None))
+        else:
+            out.append(("at", expr_poly(i)))
+    return (cur.id, tuple(out))
